@@ -285,6 +285,11 @@ fn probes(cx: &mut Ctx, s: &Schema) {
             plain(all_items(0), vec![cmp(Cmp::Ge, 1, i(5))]),
             plain(all_items(1), vec![cmp(Cmp::Lt, 1, i(n_rows - 3))]),
             plain(vec![item(Fn_::Min, Some(3)), item(Fn_::Max, Some(3)), item(Fn_::Count, Some(3))], vec![]),
+            // without SUM(int) (which makes the whole statement decline the columnar path)
+            plain(vec![item(Fn_::Min, Some(1)), item(Fn_::Max, Some(1)), item(Fn_::Count, Some(1)), item(Fn_::Count, None)], vec![]),
+            plain(vec![item(Fn_::Min, Some(1)), item(Fn_::Max, Some(1)), item(Fn_::Avg, Some(1))], vec![cmp(Cmp::Lt, 1, i(n_rows - 3))]),
+            plain(vec![item(Fn_::Min, Some(0)), item(Fn_::Max, Some(0)), item(Fn_::Avg, Some(0)), item(Fn_::Count, Some(0))], vec![]),
+            plain(vec![item(Fn_::Max, Some(1)), item(Fn_::Min, Some(1))], vec![cmp(Cmp::Ge, 1, i(7))]),
         ] {
             run_stmt(cx, s, &t, &mut db, &rsx, &q, name);
             cx.rep.count("probe_statements_large");
